@@ -161,6 +161,8 @@ func (p *pkgInfo) findMutable() {
 			p.mutable[id.Name] = true
 		}
 	}
+	mutMethods := p.mutatingMethods()
+	varType := p.varTypes()
 	for _, f := range p.files {
 		for _, d := range f.Decls {
 			fd, ok := d.(*ast.FuncDecl)
@@ -168,6 +170,14 @@ func (p *pkgInfo) findMutable() {
 				continue
 			}
 			ast.Inspect(fd.Body, func(n ast.Node) bool {
+				if call, ok := n.(*ast.CallExpr); ok {
+					// v.m(...) on a package-level variable v whose method m writes through its receiver
+					if sel, ok := call.Fun.(*ast.SelectorExpr); ok {
+						if id, ok := sel.X.(*ast.Ident); ok && p.isPkgVar(id) && mutMethods[varType[id.Name]][sel.Sel.Name] {
+							p.mutable[id.Name] = true
+						}
+					}
+				}
 				switch x := n.(type) {
 				case *ast.AssignStmt:
 					for _, l := range x.Lhs {
@@ -201,6 +211,164 @@ func (p *pkgInfo) findMutable() {
 			})
 		}
 	}
+}
+
+// mutatingMethods: per named type, the methods that write through their receiver (a pointer receiver assigning to
+// or incrementing anything rooted at it; any receiver writing an element of a map/slice it holds, deleting from or
+// appending to one), closed under calls to other such methods on the same receiver.
+func (p *pkgInfo) mutatingMethods() map[string]map[string]bool {
+	type meth struct {
+		fd   *ast.FuncDecl
+		recv string
+		ptr  bool
+		typ  string
+	}
+	var ms []meth
+	for _, f := range p.files {
+		for _, d := range f.Decls {
+			fd, ok := d.(*ast.FuncDecl)
+			if !ok || fd.Body == nil || fd.Recv == nil || len(fd.Recv.List) != 1 || len(fd.Recv.List[0].Names) != 1 {
+				continue
+			}
+			m := meth{fd: fd, recv: fd.Recv.List[0].Names[0].Name}
+			t := fd.Recv.List[0].Type
+			if st, ok := t.(*ast.StarExpr); ok {
+				m.ptr = true
+				t = st.X
+			}
+			if id, ok := t.(*ast.Ident); ok {
+				m.typ = id.Name
+				ms = append(ms, m)
+			}
+		}
+	}
+	out := map[string]map[string]bool{}
+	set := func(t, n string) bool {
+		if out[t] == nil {
+			out[t] = map[string]bool{}
+		}
+		if out[t][n] {
+			return false
+		}
+		out[t][n] = true
+		return true
+	}
+	rooted := func(e ast.Expr, recv string) (bool, bool) { // rooted at the receiver, through an index
+		viaIndex := false
+		for {
+			switch x := e.(type) {
+			case *ast.Ident:
+				return x.Name == recv && x.Obj != nil, viaIndex
+			case *ast.SelectorExpr:
+				e = x.X
+			case *ast.IndexExpr:
+				viaIndex = true
+				e = x.X
+			case *ast.StarExpr:
+				e = x.X
+			case *ast.ParenExpr:
+				e = x.X
+			default:
+				return false, false
+			}
+		}
+	}
+	for changed := true; changed; {
+		changed = false
+		for _, m := range ms {
+			if out[m.typ][m.fd.Name.Name] {
+				continue
+			}
+			writes := false
+			lhs := func(e ast.Expr) {
+				if _, bare := e.(*ast.Ident); bare {
+					return // re-binding the receiver variable itself changes nothing outside
+				}
+				if r, idx := rooted(e, m.recv); r && (m.ptr || idx) {
+					writes = true
+				}
+			}
+			ast.Inspect(m.fd.Body, func(n ast.Node) bool {
+				switch x := n.(type) {
+				case *ast.AssignStmt:
+					for _, l := range x.Lhs {
+						lhs(l)
+					}
+				case *ast.IncDecStmt:
+					lhs(x.X)
+				case *ast.CallExpr:
+					if id, ok := x.Fun.(*ast.Ident); ok && id.Name == "delete" && len(x.Args) > 0 {
+						if r, _ := rooted(x.Args[0], m.recv); r {
+							writes = true
+						}
+					}
+					if sel, ok := x.Fun.(*ast.SelectorExpr); ok {
+						if id, ok := sel.X.(*ast.Ident); ok && id.Name == m.recv && out[m.typ][sel.Sel.Name] {
+							writes = true
+						}
+					}
+				}
+				return true
+			})
+			if writes && set(m.typ, m.fd.Name.Name) {
+				changed = true
+			}
+		}
+	}
+	return out
+}
+
+// varTypes: the named type of each package-level variable, where the declaration shows it (explicit type T or *T,
+// composite literal T{...} or &T{...}, new(T), or a call of a package function whose first result is T or *T).
+func (p *pkgInfo) varTypes() map[string]string {
+	named := func(e ast.Expr) string {
+		if st, ok := e.(*ast.StarExpr); ok {
+			e = st.X
+		}
+		if id, ok := e.(*ast.Ident); ok {
+			return id.Name
+		}
+		return ""
+	}
+	results := map[string]string{}
+	for _, f := range p.files {
+		for _, d := range f.Decls {
+			if fd, ok := d.(*ast.FuncDecl); ok && fd.Recv == nil && fd.Type.Results != nil && len(fd.Type.Results.List) > 0 {
+				results[fd.Name.Name] = named(fd.Type.Results.List[0].Type)
+			}
+		}
+	}
+	out := map[string]string{}
+	for name, vs := range p.vars {
+		if vs.Type != nil {
+			out[name] = named(vs.Type)
+			continue
+		}
+		for i, n := range vs.Names {
+			if n.Name != name || i >= len(vs.Values) {
+				continue
+			}
+			v := vs.Values[i]
+			if u, ok := v.(*ast.UnaryExpr); ok && u.Op == token.AND {
+				v = u.X
+			}
+			switch x := v.(type) {
+			case *ast.CompositeLit:
+				if x.Type != nil {
+					out[name] = named(x.Type)
+				}
+			case *ast.CallExpr:
+				if id, ok := x.Fun.(*ast.Ident); ok {
+					if id.Name == "new" && len(x.Args) == 1 {
+						out[name] = named(x.Args[0])
+					} else {
+						out[name] = results[id.Name]
+					}
+				}
+			}
+		}
+	}
+	return out
 }
 
 // stmtInfo: which mutable package variables a statement mentions (not descending into nested blocks) and whether it writes one.
